@@ -42,10 +42,7 @@ def create_divs_from_beats(note_array: np.ndarray):
         Fraction(float(ix)).limit_denominator(256) for ix in note_array["onset_beat"]
     ]
     divs = np.lcm.reduce(
-        [
-            Fraction(float(ix)).limit_denominator(256).denominator
-            for ix in np.unique(note_array["duration_beat"])
-        ]
+        [r.denominator for r in set(duration_fractions + onset_fractions)]
     )
     onset_divs = list(
         map(lambda r: int(divs * r.numerator / r.denominator), onset_fractions)
